@@ -589,7 +589,7 @@ def run(ctx):
     corrupted = selftest_rows(ctx, rows, tolerant=bool(skipped))
     for off in range(0, len(rows), 20000):
         part = rows[off:off + 20000]
-        extra = [c[0] for c in corrupted] if off == 0 else []
+        extra = [{k: v for k, v in c[0].items() if k != "_src"} for c in corrupted] if off == 0 else []
         fin = os.path.join(ctx.workdir, "c28judge.json")
         with open(fin, "w") as f:
             json.dump(part + extra, f)
@@ -599,7 +599,7 @@ def run(ctx):
         if data["n"] != len(part) + len(extra):
             ctx.machinery("trace module consumed %s of %d rows" % (data["n"], len(part) + len(extra)))
         ctx.count(0, traces=len(part))
-        flagged = {}
+        flagged, bad_src = {}, {b["row"] - 1 for b in data["bad"]}
         for b in data["bad"]:
             if b["row"] > len(part):
                 flagged[b["row"] - len(part)] = {f[0] for f in b["failed"]}
@@ -613,7 +613,9 @@ def run(ctx):
                 ctx.drift("%s differs from the specification at call %d of %s: %s" % (
                     row["w"], b["at"], row["ops"], row["obs"][b["at"] - 1]), row)
         # binding self-test: the corrupted observations must be flagged with the right clause
-        for i, (_, clause) in enumerate(extra and corrupted):
+        for i, (cr, clause) in enumerate(extra and corrupted):
+            if cr["_src"] in bad_src:
+                continue        # the source observation itself deviates (reported above); nothing to learn from corrupting it
             if clause not in flagged.get(i + 1, set()):
                 ctx.machinery("binding self-test: corrupted row %d not flagged as %s (got %s)" % (i + 1, clause, flagged.get(i + 1)))
     if skipped:
@@ -626,10 +628,12 @@ def run(ctx):
 def selftest_rows(ctx, rows, tolerant=False):
     """Corrupted copies of real observations (binding self-test)."""
     def pick(pred):
-        for r in rows:
+        for idx, r in enumerate(rows[:20000]):
             for k, (op, o) in enumerate(zip(r["ops"], r["obs"])):
                 if pred(r, k, op, o):
-                    return json.loads(json.dumps(r)), k
+                    c = json.loads(json.dumps(r))
+                    c["_src"] = idx
+                    return c, k
         if tolerant:
             return None, None
         ctx.machinery("self-test: no suitable row")
